@@ -300,6 +300,12 @@ impl CaseKind for SeqCase {
         json!(self.calls.iter().map(|c| c.sample()).collect::<Vec<_>>())
     }
     fn run(&self) -> Outcome {
+        crate::exec::with_shared_acts(|| self.run_shared())
+    }
+}
+
+impl SeqCase {
+    fn run_shared(&self) -> Outcome {
         let mut last = Outcome::discard("empty sequence");
         let mut key = KeyHasher::new("seq");
         for (i, c) in self.calls.iter().enumerate() {
